@@ -460,7 +460,52 @@ func (p *Posix) CreateBucket(ctx context.Context, input *s3.CreateBucketInput, a
 	return nil
 }
 
+// pruneEmptyDirs removes the directories below dir when nothing but empty
+// directories lies there, none of them uploaded as a directory object
+// (bucket != "": those carry an etag). A put object creates the parents of
+// its key, and the key's directory in the versioning directory, before it
+// moves the data there; when it does not get that far the empty directories
+// stay behind. They are no objects and are not listed, and must not keep
+// the bucket from being deleted. The walk ends at the first object found.
+func (p *Posix) pruneEmptyDirs(bucket, dir string, top bool) bool {
+	ents, err := os.ReadDir(dir)
+	if err != nil {
+		return false
+	}
+	for _, ent := range ents {
+		if top && ent.Name() == metaTmpDir {
+			continue
+		}
+		if !ent.IsDir() {
+			return false
+		}
+		path := filepath.Join(dir, ent.Name())
+		if bucket != "" {
+			rel, err := filepath.Rel(bucket, path)
+			if err != nil {
+				return false
+			}
+			if _, err := p.meta.RetrieveAttribute(nil, bucket, rel, etagkey); err == nil {
+				return false
+			}
+		}
+		if !p.pruneEmptyDirs(bucket, path, false) {
+			return false
+		}
+		// fails, as it should, when something has appeared in there
+		if err := os.Remove(path); err != nil {
+			return false
+		}
+	}
+	return true
+}
+
 func (p *Posix) isBucketEmpty(bucket string) error {
+	p.pruneEmptyDirs(bucket, bucket, true)
+	if p.versioningEnabled() {
+		p.pruneEmptyDirs("", filepath.Join(p.versioningDir, bucket), true)
+	}
+
 	if p.versioningEnabled() {
 		ents, err := os.ReadDir(filepath.Join(p.versioningDir, bucket))
 		if err != nil && !errors.Is(err, fs.ErrNotExist) {
